@@ -160,6 +160,19 @@ prop('C11',
   "Not decided: bridge equivalence over frame histories, interaction with cached flows/timeouts, delivery through the real encoding end to end.",
   "custom AST/CFG checker: must-pass-through with closure summaries, guard dominance, path-sensitive reachability under constant environments, argument agreement", "DESIGN.md 5/C11")
 
+prop('C19',
+  "Static analysis of /repo's current source (partial property): decides structural necessary conditions - the adjacency is written only by "
+  "the probe handler and _delete_links; LinkEvent(added) is raised only under `link not in adjacency` together with the insert; "
+  "LinkEvent(removed) only in _delete_links, once per link of the argument, paired with a pop per link; withdrawn links are selections from "
+  "the adjacency; a lost switch's links are selected on either end; expiry compares timestamp + timeout with now on a recurring timer; "
+  "probe writer and reader agree ('dpid:'+hex vs startswith/[5:]/base 16, str(port) vs isdigit/int, TLV order vs indices, textual form "
+  "tried before the 8-byte binary fallback, link direction); the flood bit is 'in tree or edge port', the port-mod uses the NO_FLOOD "
+  "mask/config and is skipped only when the remembered bit equals the new one; link culling fixes both directions of a switch pair "
+  "from the same link object and only from links seen in both directions. Decides these conditions; the forest/spanning property of "
+  "_calc_spanning_tree for every graph is NOT decided.",
+  "Not decided (declared): exactness of the adjacency w.r.t. a physical network; forest / spanning correctness of the tree traversal for every adjacency (algorithmic, value-level); hold-down timing.",
+  "custom AST/CFG checker: ownership, guard dominance, per-iteration effect intervals, writer/reader constant agreement, ordering (dominance) of alternative decoders", "DESIGN.md 5/C19")
+
 NOT_APPLICABLE = {
   'C16': "Address types: the statement is about numeric/textual agreement over the whole address domain (byte order, mask arithmetic, CIDR parsing, zero-run compression, round trips, rejection of malformed text) - results of computations on runtime values; no shape-level rule is a necessary and telling condition for it (DESIGN.md section 7).",
 }
